@@ -37,6 +37,9 @@ def menu():
         ("Plus", "x", "y"), ("Plus", "y", "x"), ("Minus", "x", "y"), ("Times", "x", "y"), ("LT", "x", "y"), ("LE", "x", "y"),
         ("Equals", "x", "y"), ("Equals", "y", "x"), ("Equals", "r", "s"),
         ("Int", P(1)), ("Int", P(2)), ("Int", P(-1)), ("Real", P(1)), ("Real", P(Fraction(1, 2))), ("Real", P(2)),
+        # floats denote exactly the binary rational they are (0.1 is not 1/10)
+        ("Real", P(0.1)), ("Real", P(Fraction(1, 10))), ("Real", P(1e-7)), ("Real", P(Fraction(1, 10**7))), ("Real", P(0.3)), ("Real", P(Fraction(3, 10))),
+        ("Real", P(Fraction(0))),
         # rationals that differ by less than a double can tell, integers beyond 2**53
         ("Real", P(Fraction(10**20 + 1, 10**20))), ("Real", P(2**53)), ("Real", P(2**53 + 1)), ("Real", P(Fraction(1, 3))), ("Real", P(Fraction(33333333333333333, 10**17))),
         ("Int", P(2**53)), ("Int", P(2**53 + 1)),
